@@ -557,6 +557,13 @@ func (fs *fileSystem) Rename(oldname, newname string) error {
 			// oldinode cannot become a descendant of itself.
 			return oldinode, ErrInvalidArgument
 		}
+		if newdirf.inode == olddirf.inode && newname == oldname {
+			// Renaming an entry onto itself is a no-op
+			// (otherwise the entry would be re-added to
+			// its directory below and then deleted from
+			// it when this function returns nil).
+			return oldinode, nil
+		}
 		if oldinode.FS() != cfs && newdirf.inode != olddirf.inode {
 			// moving a mount point to a different parent
 			// is not (yet) supported.
